@@ -126,6 +126,11 @@ class Harness:
         self.wrec = base.WarnRec()
         self.sh.set(self.B, 'warnings', self.wrec)
         engine.FORMAT_CONCRETIZE = True        # to_expr formats node numbers
+        if self.middle == 'copy':
+            # `BDD.__copy__` constructs `BDD(...)`: the duplicate must not run the real `__del__`
+            # (a collection at an arbitrary moment inside the path)
+            from ..mgr import nodel_class
+            self.sh.set(self.B, 'BDD', nodel_class(self.B))
 
     def run_autoref(self, op, m, bdd, U, u, extract):
         c = engine.CTX
@@ -194,10 +199,29 @@ class Harness:
         if op in AUTOREF_OPS:
             return self.run_autoref(op, m, bdd, U, u, extract)
         try:
-            r1 = do(op, bdd, names, U, V)
+            if self.middle == 'copy':
+                # the manager is duplicated (real `BDD.__copy__`); the *duplicate* answers the query
+                # first, then the original creates a node of its own (which can take the number the
+                # duplicate gave to its result) and answers the same query: the two managers share nothing
+                import copy as _copy
+                stage = 'copy'
+                m.pred.items = lambda: [(t, k) for k, t in m.succ.items() if k != 1]
+                b2 = _copy.copy(bdd)
+                b2._assert_int = lambda x: x
+                stage = 'query-on-duplicate'
+                r1 = do(op, b2, names, U, V)
+                stage = 'filler'
+                try:
+                    bdd.find_or_add(flv, flo, fhi)
+                except ValueError:
+                    raise engine.Abort()
+            else:
+                r1 = do(op, bdd, names, U, V)
             if op == 'to_expr':
                 r1 = str(r1)
-            if self.middle == 'swap':
+            if self.middle == 'copy':
+                pass
+            elif self.middle == 'swap':
                 stage = 'swap'
                 bdd.swap(0, 1)
             else:
@@ -326,14 +350,24 @@ def replay(case):
     tts = {k: TT(k) for k in held}
     mid = 'swap(0, 1)' if middle == 'swap' else f'collect_garbage(); find_or_add({flv}, {flo}, {fhi})'
     call = f'{op}(u={u}, v={v}); {mid}; {op}(u={u}, v={v})'
+    if middle == 'copy':
+        call = f'b2 = copy.copy(bdd); b2.{op}(u={u}, v={v}); bdd.find_or_add({flv}, {flo}, {fhi}); bdd.{op}(u={u}, v={v})'
     with warnings.catch_warnings(record=True) as wl:
         warnings.simplefilter('always')
         try:
-            r1 = do(op, bdd, names, u, v)
+            if middle == 'copy':
+                import copy as _copy
+                b2 = _copy.copy(bdd)
+                b2.__class__ = type('_Quiet', (type(b2),), {'__del__': lambda self: None})
+                # (the duplicate holds references of its own: its shutdown check is not the subject)
+                r1 = do(op, b2, names, u, v)
+            else:
+                r1 = do(op, bdd, names, u, v)
             if middle == 'swap':
                 bdd.swap(0, 1)
             else:
-                bdd.collect_garbage()
+                if middle != 'copy':
+                    bdd.collect_garbage()
                 try:
                     bdd.find_or_add(flv, flo, fhi)
                 except ValueError:
